@@ -38,6 +38,14 @@ class Rng:
         return xs
 
 
+KINDS = (0, 1, 2)     # set by suites_for(): the match kinds the current property needs
+
+
+def pick_kind(rng, allowed=(0, 1, 2)):
+    ks = [k for k in allowed if k in KINDS] or list(allowed)
+    return rng.choice(ks)
+
+
 VTYPES = {
     "u8": (0, 2**8 - 1), "u16": (0, 2**16 - 1), "u32": (0, 2**32 - 1), "u64": (0, 2**64 - 1),
     "u128": (0, 2**128 - 1), "usize": (0, 2**64 - 1), "i8": (-2**7, 2**7 - 1),
@@ -65,6 +73,8 @@ class Case:
         hx = lambda b: b.hex() if b else "-"
         out = [f"CASE {self.id}", f"VAR {self.var}", f"KIND {self.kind}", f"NFB {self.nfb}",
                f"VT {self.vt}", f"ENTRY {self.entry}", f"OPS {self.ops}"]
+        if self.group:
+            out.append(f"GROUP {self.group}")
         out += [f"P {hx(p)} {v}" for p, v in self.pats]
         out += [f"H {hx(h)}" for h in self.hays]
         out += [f"T {hx(self.trail)}", "END"]
@@ -165,7 +175,7 @@ def g1_small(rng, n, prefix="g1"):
         pats = uniq(rand_word(rng, alpha, 1, 5) for _ in range(rng.range(1, 6)))
         hays = [hay_from(rng, alpha, pats, rng.range(0, 14)) for _ in range(rng.range(1, 4))]
         var = "cw" if max(alpha) < 128 and rng.chance(1, 3) else "bw"
-        kind = rng.below(3)
+        kind = pick_kind(rng)
         entry, vt = pick_entry_vt(rng, len(pats))
         if kind == 0 and rng.chance(1, 8):
             entry = "new" if entry == "build" else "with_values"
@@ -212,7 +222,7 @@ def g2_bytes(rng, n, prefix="g2"):
         pats = uniq(pats)
         hays = [hay_from(rng, alpha, pats, rng.range(4, 40)) for _ in range(3)]
         hays.append(bytes(rng.below(256) for _ in range(64)))
-        kind = rng.below(3)
+        kind = pick_kind(rng)
         entry, vt = pick_entry_vt(rng, len(pats))
         pv = with_values(rng, pats, vt)
         cases.append(Case(f"{prefix}_{i}", "bw", kind, rng.choice([1, 2, 16]), vt, entry,
@@ -248,7 +258,7 @@ def g3_blocks(rng, n, prefix="g3", nfbs=(1, 2, 3, 16, 64), scale=1):
         npat = rng.choice([200, 400, 800, 1500]) * scale
         alpha_n = rng.choice([256, 256, 64, 16])
         pats = uniq(bytes(rng.below(alpha_n) for _ in range(rng.range(1, rng.choice([2, 3, 4, 6])))) for _ in range(npat))
-        kind = rng.below(3)
+        kind = pick_kind(rng)
         hays = [hay_from(rng, list(range(alpha_n)), pats, rng.range(10, 40)) for _ in range(4)]
         emit(pats, kind, hays, "r")
     return cases
@@ -306,7 +316,7 @@ def g5_utf8(rng, n, prefix="g5", big=False):
             while len(h) < rng.range(3, 16):
                 h += rng.choice(pats) if rng.chance(1, 2) else [rng.choice(hpool)]
             hays.append(h)
-        emit(pats, hays, rng.below(3), rng.choice([1, 2, 16]), "ST" + ("R" if rng.chance(1, 3) else ""))
+        emit(pats, hays, pick_kind(rng), rng.choice([1, 2, 16]), "ST" + ("R" if rng.chance(1, 3) else ""))
     return cases
 
 
@@ -355,7 +365,7 @@ def g6_invalid(rng, n, prefix="g6"):
     # static entry points and huge num_free_blocks (BuildHelper capacity overflow)
     for var in ("bw", "cw"):
         emit([b"pattern"], 0, var, "build", "usize", nfb=4294967295)
-        emit([b"pattern"], 1, var, "values", "usize", nfb=16777216)
+        emit([b"pattern"], 1, var, "values", "usize", nfb=16777216 if var == "bw" else 536870912)
         emit([b"", b"x"], 0, var, "build", "usize", nfb=4294967295)
         emit([b"a", b"a"], 0, var, "new", "u32")
         emit([b""], 0, var, "with_values", "u32")
@@ -390,7 +400,7 @@ def g7_values(rng, n, prefix="g7"):
         entry = rng.choice(["build", "values", "values"])
         pv = with_values(rng, pats, vt, repeat=True)
         hays = [hay_from(rng, alpha, pats, rng.range(0, 16)) for _ in range(2)]
-        cases.append(Case(f"{prefix}_{k}", rng.choice(["bw", "cw"]), rng.below(3), rng.choice([1, 16]), vt, entry, "SR",
+        cases.append(Case(f"{prefix}_{k}", rng.choice(["bw", "cw"]), pick_kind(rng), rng.choice([1, 16]), vt, entry, "SR",
                           pv, hays, bytes(rng.below(256) for _ in range(rng.below(9))), suite="values"))
         k += 1
     return cases
@@ -420,7 +430,7 @@ def g8_perm(rng, n, prefix="g8"):
     emit([(p, j) for j, p in enumerate(pats)], "cw", 0, 16, [enc([0x3042, 0x3044, 0x3042, 0x3046, 0x3041])], list(itertools.permutations(range(4))))
     while g < n:
         var = rng.choice(["bw", "cw"])
-        kind = rng.below(2)
+        kind = pick_kind(rng, (0, 1))
         if var == "bw":
             alpha = [rng.below(256) for _ in range(rng.range(2, 40))]
             pats = uniq(rand_word(rng, alpha, 1, 4) for _ in range(rng.range(3, 120)))
@@ -436,25 +446,163 @@ def g8_perm(rng, n, prefix="g8"):
     return cases
 
 
-def suites(seed, tier):
-    rng = Rng(seed)
-    q = tier == "quick"
+# ---------------------------------------------------------------------------- per property
+# (generator, quick count, thorough count, kwargs); counts are the generator's own unit
+PLAN = {
+    # property: (kinds, [(gen, quick_n, thorough_n)], forced ops or None)
+    "C01": ((0,), [("g1", 220, 3000), ("g2", 40, 800), ("g3", 4, 24), ("g5", 30, 600)]),
+    "C02": ((0,), [("g1", 220, 3000), ("g2", 40, 800), ("g3", 4, 24), ("g5", 30, 600)]),
+    "C03": ((1,), [("g1", 220, 3000), ("g2", 40, 800), ("g3", 4, 24), ("g5", 30, 600)]),
+    "C04": ((2,), [("g1", 220, 3000), ("g2", 40, 800), ("g3", 4, 24), ("g5", 30, 600), ("g9", 40, 400)]),
+    "C05": ((0,), [("g1", 220, 3000), ("g2", 40, 800), ("g3", 4, 24), ("g5", 30, 600)]),
+    "C06": ((0, 1, 2), [("g7", 160, 2500), ("g1", 120, 1500), ("g5", 20, 300)]),
+    "C07": ((0, 1, 2), [("g1", 150, 2000), ("g2", 40, 800), ("g3", 5, 30), ("g5", 40, 800), ("g7", 60, 400)]),
+    "C08": ((0, 1, 2), [("g5", 90, 2500)]),
+    "C09": ((0, 1, 2), [("g7", 200, 3000), ("g1", 100, 1500), ("g5", 30, 400)]),
+    "C10": ((0, 1, 2), [("g6", 620, 4000)]),
+    "C11": ((0, 1, 2), [("g3", 7, 40)]),
+    "C12": ((0,), [("g1", 200, 3000), ("g2", 40, 800), ("g5", 40, 800)]),
+    "C13": ((0, 1, 2), [("g1", 200, 3000), ("g2", 40, 800), ("g3", 4, 24), ("g5", 30, 600), ("g10", 12, 60)]),
+    "C14": ((0, 1, 2), [("g8", 12, 150), ("g1", 60, 600)]),
+    "C15": ((0, 1, 2), [("g1", 200, 3000), ("g2", 40, 800), ("g3", 5, 30), ("g5", 30, 600)]),
+}
+
+
+def g9_orders(rng, n, prefix="g9"):
+    """leftmost-first: every registration order of small sets with prefix-related patterns"""
+    cases = []
+    k = 0
+    base_sets = [[b"a", b"ab", b"abc"], [b"ab", b"abc", b"b", b"bc"], [b"aa", b"a", b"aab", b"ab"],
+                 [b"abcd", b"bc", b"b", b"abc"]]
+    for pats in base_sets:
+        for perm in itertools.permutations(pats):
+            hays = [b"abcd", b"aabcab", b"xbcabcd"]
+            cases.append(Case(f"{prefix}_{k}", "bw" if k % 3 else "cw", 2, 16, "u32", "build", "ST",
+                              [(p, j) for j, p in enumerate(perm)], hays, b"", suite="orders"))
+            k += 1
+            if k >= n and len(cases) >= 24:
+                return cases
+    while k < n:
+        alpha = rng.choice([b"ab", b"abc"])
+        pats = uniq(rand_word(rng, alpha, 1, 4) for _ in range(rng.range(2, 6)))
+        hays = [hay_from(rng, alpha, pats, rng.range(2, 12)) for _ in range(3)]
+        cases.append(Case(f"{prefix}_{k}", rng.choice(["bw", "cw"]), 2, 16, "u32", "build", "ST",
+                          [(p, j) for j, p in enumerate(rng.shuffle(pats))], hays, b"", suite="orders"))
+        k += 1
+    return cases
+
+
+def g10_failchains(rng, n, prefix="g10"):
+    """long fail chains: a^k patterns and haystacks that fall all the way back (worst case for
+    the number of transitions per byte)"""
+    cases = []
+    for k in range(n):
+        depth = 4 + (k % 12) * 5
+        a = 97
+        pats = [bytes([a]) * depth, bytes([a]) * (depth // 2) + b"b"]
+        if k % 3 == 0:
+            pats.append(bytes([a]) * (depth - 1) + b"c" + bytes([a]))
+        hay1 = (bytes([a]) * (depth - 1) + b"x") * 3
+        hay2 = bytes([a]) * (2 * depth) + b"b" + bytes([a]) * depth
+        var = "cw" if k % 2 else "bw"
+        kind = pick_kind(rng)
+        cases.append(Case(f"{prefix}_{k}", var, kind, 16, "u32", "build", "ST",
+                          [(p, j) for j, p in enumerate(uniq(pats))], [hay1, hay2], b"", suite="chains"))
+    return cases
+
+
+GENS = {"g1": g1_small, "g2": g2_bytes, "g3": g3_blocks, "g5": g5_utf8, "g6": g6_invalid,
+        "g7": g7_values, "g8": g8_perm, "g9": g9_orders, "g10": g10_failchains}
+
+
+def suites_for(prop, seed, tier):
+    global KINDS
+    kinds, plan = PLAN[prop]
+    KINDS = kinds
+    rng = Rng(seed * 1000003 + int(prop[1:]))
     cs = []
-    cs += g1_small(Rng(rng.next()), 260 if q else 4000)
-    cs += g2_bytes(Rng(rng.next()), 60 if q else 1500)
-    cs += g3_blocks(Rng(rng.next()), 7 if q else 60, nfbs=(1, 2, 3, 16, 64) if q else (1, 2, 3, 4, 5, 7, 8, 16, 33, 64))
-    cs += g5_utf8(Rng(rng.next()), 50 if q else 1200, big=not q)
-    cs += g6_invalid(Rng(rng.next()), 560 if q else 3000)
-    cs += g7_values(Rng(rng.next()), 110 if q else 1500)
-    cs += g8_perm(Rng(rng.next()), 12 if q else 150)
-    if not q:
-        cs += g1_exhaustive()
-    return cs
+    for name, qn, tn in plan:
+        n = qn if tier == "quick" else tn
+        sub = Rng(rng.next())
+        if name == "g3":
+            got = g3_blocks(sub, n, nfbs=(1, 2, 3, 16, 64) if tier == "quick" else (1, 2, 3, 4, 5, 7, 8, 16, 33, 64))
+        elif name == "g5":
+            got = g5_utf8(sub, n, big=(tier != "quick"))
+        else:
+            got = GENS[name](sub, n)
+        cs += [c for c in got if c.kind in kinds or c.entry in ("new", "with_values")]
+    if tier != "quick" and prop in ("C01", "C02", "C03", "C04", "C05"):
+        cs += [c for c in g1_exhaustive() if c.kind in kinds]
+    KINDS = (0, 1, 2)
+    # unique ids
+    seen = set()
+    out = []
+    for c in cs:
+        if c.id in seen:
+            continue
+        seen.add(c.id)
+        out.append(c)
+    return out
+
+
+def parse_case_file(path):
+    """reads a case file (also a replay file: '#' lines are comments)"""
+    cases = []
+    cur = None
+    unhex = lambda x: b"" if x == "-" else bytes.fromhex(x)
+    for line in open(path):
+        parts = line.split()
+        if not parts or parts[0].startswith("#"):
+            continue
+        t = parts[0]
+        if t == "CASE":
+            cur = Case(parts[1], ops="")
+        elif cur is None:
+            continue
+        elif t == "VAR":
+            cur.var = parts[1]
+        elif t == "KIND":
+            cur.kind = int(parts[1])
+        elif t == "NFB":
+            cur.nfb = int(parts[1])
+        elif t == "VT":
+            cur.vt = parts[1]
+        elif t == "ENTRY":
+            cur.entry = parts[1]
+        elif t == "OPS":
+            cur.ops = parts[1] if len(parts) > 1 else ""
+        elif t == "GROUP":
+            cur.group = parts[1]
+        elif t == "P":
+            cur.pats.append((unhex(parts[1]), int(parts[2]) if len(parts) > 2 else 0))
+        elif t == "H":
+            cur.hays.append(unhex(parts[1]))
+        elif t == "T":
+            cur.trail = unhex(parts[1])
+        elif t == "END":
+            cases.append(cur)
+            cur = None
+    return cases
+
+
+def corpus_cases(prop):
+    """minimised failures kept from earlier runs (appended by hand only); they run first"""
+    import os
+    d = os.path.join(os.path.dirname(os.path.dirname(os.path.abspath(__file__))), "corpus")
+    out = []
+    if os.path.isdir(d):
+        for f in sorted(os.listdir(d)):
+            if f.startswith(prop + "-") and f.endswith(".case"):
+                for c in parse_case_file(os.path.join(d, f)):
+                    c.id = "corpus_" + f[:-5] + "_" + c.id
+                    c.suite = "corpus"
+                    out.append(c)
+    return out
 
 
 if __name__ == "__main__":
     import sys
-    seed = int(sys.argv[1]) if len(sys.argv) > 1 else 1
-    tier = sys.argv[2] if len(sys.argv) > 2 else "quick"
-    cs = suites(seed, tier)
-    sys.stdout.write("".join(c.text() for c in cs))
+    prop = sys.argv[1]
+    seed = int(sys.argv[2]) if len(sys.argv) > 2 else 1
+    tier = sys.argv[3] if len(sys.argv) > 3 else "quick"
+    sys.stdout.write("".join(c.text() for c in suites_for(prop, seed, tier)))
